@@ -33,7 +33,7 @@ macro_rules! record_fn {
                 bounds: vec![],
                 nobounds: true,
                 polys: vec![],
-                rng: false,
+                rng: false, wf: true,
                 ops: vec![],
                 adv: vec![],
                 expect: Default::default(),
